@@ -50,15 +50,16 @@ def to_xml(node: Node, level: int = 0) -> str:
     close_tag = "</" + name + ">"
     xml += indent + open_tag
     if node.content is not None:
-        if isinstance(node.content, str):
+        content = node.content
+        if isinstance(content, str):
             # if it hasn't been escaped already, escape it
-            if all (x not in node.content for x in ('&amp;', '&lt;', '&gt;')):
-                node.content = escape(node.content)
+            if all (x not in content for x in ('&amp;', '&lt;', '&gt;')):
+                content = escape(content)
                 # Hopefully, this is a temporary hack. Need to figure out a better way...
                 # The problem is that <para> tags are treated idiosyncratically because their rules aren't fully
                 #  supported. They appear within node content, unlike other tags.
-                node.content = node.content.replace('&lt;para&gt;', '<para>').replace('&lt;/para&gt;', '</para>')
-        xml += str(node.content) + close_tag + "\n"
+                content = content.replace('&lt;para&gt;', '<para>').replace('&lt;/para&gt;', '</para>')
+        xml += str(content) + close_tag + "\n"
         closed = True
     elif len(node.children) > 0:
         xml += "\n"
